@@ -151,31 +151,58 @@ func runGen2(o *hx.Out, r *hx.Rng, rounds int, aim map[string]bool) {
 	for round := 0; round < rounds; round++ {
 		for ei := range all {
 			e := &all[ei]
-			var schema any
-			variant := hx.Pick(r, []string{"checked", "plain", "refined"})
-			applied := []string{variant}
-			pm := hx.Safely(func() {
-				schema = buildVariant(e, variant)
-				if schema != nil {
-					schema, applied = applyRandomMods(r, e, schema, applied)
-				}
-			})
-			if pm != "" || schema == nil {
-				o.Emit(fmt.Sprintf("c09 gen %s %s | build #%s", e.name, strings.Join(applied, " "), e.name), "P=panic:"+strings.ReplaceAll(pm, " ", "_"))
-				continue
-			}
-			gt := goTypeOf(schema)
+			aimed := aim[goTypeOf(e.plain())]
 			reps := 1
-			if aim[gt] {
-				reps = 8
+			if aimed {
+				reps = 12 // the entry-point table says this type's routing changed: many more schemas of it
 			}
-			sm := reflect.ValueOf(schema).MethodByName("StrictParse")
-			if !sm.IsValid() {
-				continue
-			}
-			want := sm.Type().In(0)
 			for rep := 0; rep < reps; rep++ {
-				if ei >= nOld || aim[gt] {
+				var schema any
+				// "+ow": a container/primitive-level Overwrite(identity) on top (the checks' pointer pre-pass in
+				// validatePointer, and everything else that keys on "has an overwrite check", becomes reachable)
+				variant := hx.Pick(r, []string{"checked", "plain", "refined", "plain+ow", "checked+ow"})
+				applied := []string{variant}
+				pm := hx.Safely(func() {
+					schema = buildVariant(e, strings.TrimSuffix(variant, "+ow"))
+					if schema != nil && strings.HasSuffix(variant, "+ow") {
+						if s2, ok := applyStep(schema, step{"Overwrite", 0}, e.dflt, nil); ok {
+							schema = s2
+						} else {
+							applied[0] = strings.TrimSuffix(variant, "+ow")
+						}
+					}
+					if schema != nil {
+						schema, applied = applyRandomMods(r, e, schema, applied)
+					}
+				})
+				if pm != "" || schema == nil {
+					o.Emit(fmt.Sprintf("c09 gen %s %s | build #%s", e.name, strings.Join(applied, " "), e.name), "P=panic:"+strings.ReplaceAll(pm, " ", "_"))
+					continue
+				}
+				// a promoted method (ZodEmail.Min -> *ZodString) leaves the family's own Go type: then the bare schema of
+				// the family is exercised in this round too, so that every type of the entry-point table is reached
+				// in every run
+				runOne(o, r, e, schema, applied, ei >= nOld || aimed || strings.HasSuffix(applied[0], "+ow"))
+				if bare := e.plain(); goTypeOf(schema) != goTypeOf(bare) {
+					runOne(o, r, e, bare, []string{"plain"}, true)
+				}
+			}
+		}
+	}
+}
+
+// runOne: the six entry points of one schema on its well-typed samples (when asked) and on two ill-typed inputs.
+func runOne(o *hx.Out, r *hx.Rng, e *gentry, schema any, applied []string, wellTyped bool) {
+	{
+		{
+			{
+				gt := goTypeOf(schema)
+				sm := reflect.ValueOf(schema).MethodByName("StrictParse")
+				if !sm.IsValid() {
+					return
+				}
+				want := sm.Type().In(0)
+				if wellTyped {
 					var ins []reflect.Value
 					var toks []string
 					for _, x := range e.ins {
@@ -194,6 +221,9 @@ func runGen2(o *hx.Out, r *hx.Rng, rounds int, aim map[string]bool) {
 						o.Emit(fmt.Sprintf("c09 gen %s %s | %s #%s", e.name, strings.Join(applied, " "), toks[k], e.name), obs)
 						o.Count("gen:" + e.name)
 						o.Count("gotype:" + gt)
+						if strings.HasSuffix(applied[0], "+ow") {
+							o.Count("gen-overwrite:" + e.name)
+						}
 					}
 				}
 				// ill-typed inputs: ParseAny = Parse, MustParse / MustParseAny panic with that error
